@@ -133,6 +133,10 @@ def run(ctx):
     if wa is not None:
         cos = [c for c in prog.closures_of(wa) if c.coroutine]
         inner = cos[0] if len(cos) == 1 else None
+        if not cos and any("::{closure" in (x or "") for x in wa.d.get("inlined", [])):
+            # the create/write/flush block became an `async fn` helper of its own (possibly in another module); its coroutine was
+            # spliced back into write_atomic at the `.await`: the steps are now in write_atomic's own body
+            inner = wa
     if wa is None or inner is None or not wa.coroutine:
         ctx.missing("R1.order", "cbh_storage::local::write_atomic coroutine bodies")
         return
@@ -202,6 +206,9 @@ def run(ctx):
     for pbb in ip8:
         ok8, why = consumed(wa, pbb)
         ctx.ob("R8.write-errors-propagate", "inner-block", ok8, wa.loc(), why)
+    if inner is wa:
+        ctx.inconclusive("R8.write-errors-propagate", "inner-block", wa.loc(),
+                         "the create/write/flush block is an async helper spliced into write_atomic: there is no inner future whose result could be classified; the individual steps are judged above")
     for b8 in prog.bodies:
         if not b8.coroutine or "LocalStorage as" not in b8.key or b8.key.count("{closure") != 1:
             continue
@@ -222,7 +229,19 @@ def run(ctx):
                    inner is not None and strip_generics(t["callee"].get("resolved") or "") == inner.key]
     ok = len(ren) == 1 and len(inner_polls) == 1
     det = f"rename sites={len(ren)}, polls of the inner block={len(inner_polls)}"
-    if ok:
+    spliced = inner is wa
+    if spliced and len(ren) == 1:
+        # helper form: the rename must still come after the flush of the spliced steps and not on their error arms; the
+        # future-object sub-rules are not re-derivable
+        fl_ = [bb for bb, t in wa.calls() if t["callee"].get("method") in ("flush", "sync_all", "sync_data") and not wa.blocks[bb].cleanup]
+        # (the spliced helper's error returns join its Ok return before write_atomic's own `?`: dominance cannot be asked for;
+        #  what remains checkable is the order on the straight path)
+        okf = bool(fl_) and any(ren[0][0] in wa.successors_reach(f, False) and f not in wa.successors_reach(ren[0][0], False) for f in fl_)
+        ctx.ob("R1.rename-after-close", "rename-guarded-by-inner-ok", okf, wa.loc(ren[0][1]["span"]),
+               f"(helper form) the rename comes after the flush of the written file and never before it: {okf}")
+        ctx.inconclusive("R1.rename-after-close", "inner-future-dropped-before-rename", wa.loc(),
+                         "the writing steps live in an async helper spliced into write_atomic; the helper's future (owning the handle) is gone from the view")
+    if ok and not spliced:
         rbb, rt = ren[0]
         pbb = inner_polls[0]
         ok = pbb in dom_o[rbb]
@@ -244,7 +263,8 @@ def run(ctx):
                     (1 in g["listed"] or g["allowed"] == {0})
         ok = ok and ready and okarm
         det += f"; guarded by Poll::Ready arm={ready}, by not-Err arm of the inner result={okarm}"
-    ctx.ob("R1.rename-after-close", "rename-guarded-by-inner-ok", ok, wa.loc(ren[0][1]["span"]) if ren else wa.loc(), det)
+    if not spliced:
+        ctx.ob("R1.rename-after-close", "rename-guarded-by-inner-ok", ok, wa.loc(ren[0][1]["span"]) if ren else wa.loc(), det)
     if len(ren) == 1:
         rbb = ren[0][0]
         # the inner future local is dropped (handle closed) before rename: a drop of the polled future dominates rename
@@ -258,8 +278,9 @@ def run(ctx):
                 if b.term["k"] == "drop" and b.term["place"]["l"] in fut_locals and not b.cleanup and \
                         b.idx in dom_o[rbb] and "async block" in b.term["ty"]["s"]:
                     okd = True
-        ctx.ob("R1.rename-after-close", "inner-future-dropped-before-rename", okd, wa.loc(),
-               "a drop of the inner block future (owning the file handle) dominates the rename")
+        if not spliced:
+            ctx.ob("R1.rename-after-close", "inner-future-dropped-before-rename", okd, wa.loc(),
+                   "a drop of the inner block future (owning the file handle) dominates the rename")
         # after rename on success path: only remove_file on the Err arm
         after = wa.successors_reach(aw_o.get(rbb, rbb), unwind=False)
         later = [(bb, k) for bb, t, k in fs_calls(wa) if bb in after and bb != rbb]
@@ -335,6 +356,10 @@ def run(ctx):
             t = creates[0][1]
             sl = Slice(inner).run(t["args"][0])
             okc = bool(sl["upvars"])
+            if inner is wa:
+                okc = any(k == tp.key for k, _, _ in sl["calls"])
+                ctx.ob("R3.temp-beside-target", "create(temp)", okc, inner.loc(t["span"]),
+                       f"(helper form) File::create path derives from temp_path_for: {okc}")
             # the captured value in the outer body: aggregate for inner closure
             from ..analysis import closure_capture_ops
             caps = closure_capture_ops(wa, inner.key)
@@ -345,7 +370,8 @@ def run(ctx):
                         s2 = Slice(wa).run(ops[i])
                         if any(k == tp.key for k, _, _ in s2["calls"]):
                             src_ok = True
-            ctx.ob("R3.temp-beside-target", "create(temp)", okc and src_ok, inner.loc(t["span"]),
+            if inner is not wa:
+              ctx.ob("R3.temp-beside-target", "create(temp)", okc and src_ok, inner.loc(t["span"]),
                    f"File::create path is a captured value derived from temp_path_for: {src_ok}")
         # temp_path_for: join receiver derives from Path::parent(arg)
         joins = [(bb, t) for bb, t in tp.calls() if callee_key(t["callee"]).endswith("Path::join")]
@@ -401,7 +427,7 @@ def run(ctx):
                                 firstnames.append(c["name"])
                     tmpl_txt = (tmpl or {}).get("text", "")
                     starts_with_arg = tmpl_txt.startswith('const b"\\xc0')
-                    okp = any(nm and nm.endswith("local::TEMP_PREFIX") for nm in firstnames) and starts_with_arg
+                    okp = any(nm and nm.endswith("::TEMP_PREFIX") and nm.startswith("cbh_storage::") for nm in firstnames) and starts_with_arg
                     detp = f"first formatted argument is {firstnames}; template begins with an argument placeholder: {starts_with_arg}"
             ctx.ob("R3.reserved-prefix", "writer-name-starts-with-prefix", okp, tp.loc(), detp)
     # the reader's test may live in the helper `is_temp_file_name` or be written out in `list` itself
@@ -421,7 +447,7 @@ def run(ctx):
             for bb, t in cb.calls():
                 if t["callee"].get("method") == "starts_with":
                     c = resolve_const(cb, t["args"][1])
-                    if c and (c.get("name") or "").endswith("local::TEMP_PREFIX"):
+                    if c and ((c.get("name") or "").endswith("::TEMP_PREFIX") and (c.get("name") or "").startswith("cbh_storage::")):
                         ok = True
                         sw_home = cb
                     det = f"starts_with({(c or {}).get('name')})"
@@ -526,6 +552,15 @@ def run(ctx):
     if puto is not None:
         te = [k for bb, t, k in fs_calls(puto) if k in ("tokio::fs::try_exists", "tokio::fs::metadata")]
         ctx.ob("R4.write-once", "put_overwrite.no-check", not te, puto.loc(), f"existence checks in put_overwrite: {te or 'none'} (by contract)")
+        # ... and it cannot succeed without having written: every `Ok` it returns lies behind the atomic write (no "already the
+        # same object" shortcut decided from a look at the stored file)
+        from ..evtflow import return_sites as _rs
+        was = [bb for bb, t in puto.calls() if callee_key(t["callee"]).endswith("local::write_atomic")]
+        domp = puto.dominators(unwind=False)
+        early = [puto.loc(st.get("span")) for bb, path, st in _rs(puto) if (path[:1] == ["Ok"] or path[:2] == ["Ready", "Ok"]) and not any(w in domp[bb] for w in was)]
+        ctx.ob("R4.write-once", "put_overwrite.ok-only-after-the-write", bool(was) and not early, puto.loc(),
+               f"write_atomic sites {len(was)}; Ok results produced without passing it: {early or 'none'}" +
+               ("" if not early else " - an overwrite that reports success without writing leaves the old object in place"))
 
     # ---- R5
     kp = prog.one("local::LocalStorage::key_path")
